@@ -102,7 +102,7 @@ def run(module, cfg, workers=16, simulate=None, depth=None, seed=0, env=None, ti
                 f.write(cfg)
         else:
             cfgname = cfg
-        cmd = ['timeout', str(int(timeout)), 'java', '-XX:+UseParallelGC'] + (java_opts or []) + [
+        cmd = ['timeout', str(int(timeout)), 'java', '-XX:+UseParallelGC', '-Djava.io.tmpdir=' + work] + (java_opts or ['-Xmx6g']) + [
             '-cp', JAR, 'tlc2.TLC', '-workers', str(workers), '-metadir', os.path.join(work, 'states'),
             '-noGenerateSpecTE', '-seed', str(seed), '-config', cfgname]
         if not deadlock:
